@@ -478,4 +478,76 @@ theorem leadIn_uniform (a dt lead : Rat) (L : Nat) (hL : 2 ≤ L) (hdt : 0 < dt)
     push_cast
     rw [hcast]; ring
 
+/-! ### every front end: the system waveform is the front end applied to the summed antenna waveform -/
+
+/-- for EVERY front end (additive or not): `AntennaSystem.full_waveform(times)` is the front end applied
+to the antenna's full waveform (noise + sum of all received signals) on the lead-in grid, re-gridded -/
+theorem sysFull_unconditional (c : SysCfg) (m : Option Nat) (sigs : List Wave) (ts : List Time) (hts : WF ts)
+    (hs : ∀ s ∈ sigs, (timesOf s).Pairwise (· < ·)) :
+    sysFull c m sigs ts = withTimes (c.fe ((leadInTimes c.leadIn ts).map
+      (fun t => (t, noiseVal c.ant m t + sumAt sigs t)))) ts := by
+  unfold sysFull
+  rw [fullWave_eq c.ant m sigs _ (leadInTimes_sorted c.leadIn ts hts) hs]
+
+/-! ### the accepted region contains everything the theorems assume -/
+
+theorem span_nonneg (s : Wave) (hne : s ≠ []) (hs : (timesOf s).Pairwise (· < ·)) : 0 ≤ span s := by
+  cases s with
+  | nil => exact absurd rfl hne
+  | cons p r =>
+    have h := lastT_ge (p :: r) hs p (by simp)
+    have hf : firstT (p :: r) = p.1 := by simp [firstT]
+    unfold span
+    rw [hf]
+    linarith
+
+theorem foldl_max_ge (l : List Wave) (m : Rat) : m ≤ l.foldl (fun m x => max m (span x)) m := by
+  induction l generalizing m with
+  | nil => exact le_refl _
+  | cons x r ih => exact le_trans (le_max_left _ _) (ih _)
+
+theorem maxSpan_nonneg (sigs : List Wave) (h : ∀ s ∈ sigs, s ≠ [] ∧ (timesOf s).Pairwise (· < ·)) :
+    0 ≤ maxSpan sigs := by
+  cases sigs with
+  | nil => simp [maxSpan]
+  | cons s r =>
+    have := span_nonneg s (h s (by simp)).1 (h s (by simp)).2
+    exact le_trans this (foldl_max_ge r _)
+
+theorem nPts_nonneg (L dt : Rat) (hL : 0 ≤ L) (hdt : 0 < dt) : 0 ≤ nPts L dt := by
+  have hq : 0 ≤ L / dt := div_nonneg hL (le_of_lt hdt)
+  have hf : 0 ≤ (L / dt).floor := Rat.le_floor_iff.2 (by simpa using hq)
+  unfold nPts pyTrunc
+  simp only [hq, if_true]
+  split <;> omega
+
+/-- a well-formed window and non-empty, time-ordered signals are never rejected by `full_waveform` -/
+theorem wf_not_rejected (sigs : List Wave) (ts : List Time) (hts : WF ts)
+    (h : ∀ s ∈ sigs, s ≠ [] ∧ (timesOf s).Pairwise (· < ·)) : fullWaveRejects sigs ts = false := by
+  have hdt := dt_pos ts hts
+  have h1 : ¬ ts.length < 2 := by have := hts.1; omega
+  have h2 : sigs.any (·.isEmpty) = false := by
+    rw [List.any_eq_false]
+    intro s hs
+    have := (h s hs).1
+    cases s <;> simp_all
+  have h3 : ¬ dtOf ts = 0 := ne_of_gt hdt
+  have h4 : ¬ nPts (maxSpan sigs) (dtOf ts) < 0 := not_lt.2 (nPts_nonneg _ _ (maxSpan_nonneg sigs h) hdt)
+  simp [fullWaveRejects, h1, h2, h3, h4]
+
+theorem dtOf_uniform (a dt : Rat) (L : Nat) (hL : 2 ≤ L) : dtOf (uniformGrid a dt L) = dt := by
+  obtain ⟨L', rfl⟩ : ∃ L', L = L' + 2 := ⟨L - 2, by omega⟩
+  have h0 : (uniformGrid a dt (L' + 2))[0]? = some (a + ((0 : Nat) : Rat) * dt) := by simp [uniformGrid]
+  have h1 : (uniformGrid a dt (L' + 2))[1]? = some (a + ((1 : Nat) : Rat) * dt) := by simp [uniformGrid]
+  simp only [dtOf, h0, h1, Option.getD_some]; push_cast; ring
+
+/-- uniform grids with a non-negative lead-in time are never rejected by `_calculate_lead_in_times` -/
+theorem leadIn_uniform_not_rejected (a dt lead : Rat) (L : Nat) (hL : 2 ≤ L) (hdt : 0 < dt) (hlead : 0 ≤ lead) :
+    leadInRejects lead (uniformGrid a dt L) = false := by
+  obtain ⟨hN, _, _, hpos⟩ := leadIn_uniform a dt lead L hL hdt hlead
+  have h1 : ¬ (uniformGrid a dt L).length < 2 := by simp [uniformGrid]; omega
+  have h2 : ¬ dtOf (uniformGrid a dt L) = 0 := by rw [dtOf_uniform a dt L hL]; exact ne_of_gt hdt
+  have h3 : ¬ leadInN lead (uniformGrid a dt L) < 0 := by rw [hN]; omega
+  simp [leadInRejects, h1, h2, h3]
+
 end Ant
